@@ -771,5 +771,12 @@ func (c *Client) Do(ctx context.Context, q Query) (err error) {
 		}
 		return nil
 	})
-	return g.Wait()
+	if err := g.Wait(); err != nil {
+		// The query failed, but the client can stay open (e.g. on server
+		// exception). Drop everything that was encoded and not flushed, so it
+		// is not sent as a prefix of the next request.
+		c.writer = proto.NewWriter(c.conn, new(proto.Buffer))
+		return err
+	}
+	return nil
 }
